@@ -505,7 +505,11 @@ class SourceGenerator(NodeVisitor):
             self.visit(arg)
         for keyword in node.keywords:
             write_comma()
-            self.write(keyword.arg + "=")
+            if keyword.arg is None:
+                # f(**mapping)
+                self.write("**")
+            else:
+                self.write(keyword.arg + "=")
             self.visit(keyword.value)
         if getattr(node, "starargs", None):
             write_comma()
@@ -555,8 +559,12 @@ class SourceGenerator(NodeVisitor):
         for idx, (key, value) in enumerate(zip(node.keys, node.values)):
             if idx:
                 self.write(", ")
-            self.visit(key)
-            self.write(": ")
+            if key is None:
+                # {**mapping}
+                self.write("**")
+            else:
+                self.visit(key)
+                self.write(": ")
             self.visit(value)
         self.write("}")
 
